@@ -26,6 +26,9 @@ pub struct GenCfg {
     pub shuffle: bool,
     /// keep position-restricted RECORD_LAYOUT children in ascending position order
     pub canonical_positions: bool,
+    /// comments between the items of uninterpreted IF_DATA payloads (they are not content and are
+    /// not written back, so only checks whose oracle skips them switch this on)
+    pub ifdata_comments: bool,
     /// fixed version, or random among the six
     pub version: Option<Ver>,
     /// number of modules
@@ -45,6 +48,7 @@ impl Default for GenCfg {
             a2ml: true,
             shuffle: true,
             canonical_positions: false,
+            ifdata_comments: false,
             version: None,
             max_modules: 2,
         }
@@ -149,11 +153,13 @@ impl<'a> DocGen<'a> {
         }
         let n = rng.urange(0, 6);
         for _ in 0..n {
+            self.push_payload_comment(rng, &mut out);
             self.push_scalar(rng, &mut out);
         }
         if depth < 3 && rng.chance(1, 2) {
             let nb = rng.urange(1, 3);
             for _ in 0..nb {
+                self.push_payload_comment(rng, &mut out);
                 if rng.chance(1, 4) {
                     // a non-block tagged item between blocks: TAG scalars...
                     out.push(Tok::word(TK::Ident, &format!("KW_{}", rng.below(20))));
@@ -170,11 +176,54 @@ impl<'a> DocGen<'a> {
                 }
             }
         }
+        // in front of the /end of the block (or of the IF_DATA)
+        self.push_payload_comment(rng, &mut out);
         out
     }
 
+    fn push_payload_comment(&self, rng: &mut Rng, out: &mut Vec<Tok>) {
+        if self.cfg.ifdata_comments && rng.chance(1, 8) {
+            let c = if rng.coin() {
+                format!("/* ifd {} */", rng.below(100))
+            } else {
+                format!("// ifd {}", rng.below(100))
+            };
+            out.push(Tok::comment(&c));
+        }
+    }
+
     fn push_scalar(&self, rng: &mut Rng, out: &mut Vec<Tok>) {
-        match rng.below(5) {
+        match rng.below(8) {
+            5 => {
+                // float with an integral value, spelled as a float
+                let v = *rng.pick(&[0.0f64, 1.0, -3.0, 250.0, 65536.0, -2147483648.0, 4294967296.0, 1e3, 2.5e2, 1e10, 3e15, 1e20]);
+                let text = match rng.below(3) {
+                    0 => format!("{v:?}"),
+                    1 => format!("{v:e}"),
+                    _ => format!("{v:.1}"),
+                };
+                out.push(Tok::float(v, text));
+            }
+            6 => {
+                // double precision value that is not representable as f32
+                let v = match rng.below(4) {
+                    0 => 0.1,
+                    1 => 3.141592653589793,
+                    2 => -1234.5678e10,
+                    _ => (rng.f64_unit() - 0.5) * 1e6,
+                };
+                out.push(Tok::float(v, format!("{v:?}")));
+            }
+            7 => {
+                // integer beyond 32 bit, decimal or hex
+                let v = rng.next_u64();
+                let v: i128 = if rng.coin() { i128::from(v) } else { i128::from(v as i64) };
+                if v >= 0 && rng.coin() {
+                    out.push(Tok::int(v, format!("0x{v:X}")));
+                } else {
+                    out.push(Tok::int(v, format!("{v}")));
+                }
+            }
             0 => out.push(Tok::word(
                 TK::Ident,
                 &values::gen_ident_text(rng, self.g, &ValCfg {
